@@ -16,6 +16,15 @@ Theorem C07_modulo_findings : forall (c : ctx) (p : pkt),
   resp_ok p (model_response c p) = true.
 Proof. exact respond_sound. Qed.
 
+(* the same for the model the engine runs, which includes the refusal of a response larger than the client's
+   Maximum Packet Size (the connection is closed with DISCONNECT 0x95 instead) *)
+Theorem C07_modulo_findings_sized : forall (c : ctx) (p : pkt),
+  wf_request c p = true ->
+  KF_C07_pubrel_error c p = false ->
+  KF_C07_qos_downgrade c p = false ->
+  resp_ok p (model_response_sized c p) = true.
+Proof. exact respond_sized_sound. Qed.
+
 Definition props0 : props :=
   {| p_alias := 0; p_subids := []; p_mei := 0; p_ct := []; p_rt := []; p_cd := []; p_user := []; p_rs := [];
      p_sei := 0; p_seiflag := false; p_rm := 0; p_tam := 0; p_maxqos := 0; p_maxqosflag := false; p_aci := [];
@@ -26,7 +35,7 @@ Definition mkpk (ty qos pid rc : N) : pkt :=
      k_payload := []; k_rc := rc; k_rcs := []; k_sp := false; k_props := props0; k_filters := [] |}.
 Definition ctx0 (maxqos : N) (infl : option N) : ctx :=
   {| x_ver := 5; x_maxqos := maxqos; x_obscure := false; x_topic_valid := true; x_recvq := 10%Z;
-     x_acl_write := true; x_infl := infl; x_filters := [] |}.
+     x_acl_write := true; x_infl := infl; x_filters := []; x_too_large := false |}.
 
 (* refutation 1: PUBREL with reason 0x92 for an identifier the broker knows gets no PUBCOMP *)
 Theorem C07_refuted_pubrel : exists c p,
@@ -48,5 +57,6 @@ Example C07_nonvacuous :
 Proof. vm_compute. repeat split. Qed.
 
 Print Assumptions C07_modulo_findings.
+Print Assumptions C07_modulo_findings_sized.
 Print Assumptions C07_refuted_pubrel.
 Print Assumptions C07_refuted_downgrade.
